@@ -3,11 +3,11 @@
     [Print Assumptions] beneath.  Models: Model/Tokenizer.v, Model/Parser.v, Model/Command.v,
     Model/Printer.v; proofs: Proofs/ParserBasics.v, ExprRoundTrip.v, FuelProofs.v,
     ParserProofs.v, CommandProofs.v, TotalityProofs.v, PanicProofs.v, QueryRoundTrip.v,
-    KnownClassProofs.v, TokenizerProofs.v, LexProofs.v, CommandRoundTrip.v. *)
+    TokenizerProofs.v, LexProofs.v, CommandRoundTrip.v. *)
 From Coq Require Import NArith ZArith List Bool.
 From Snel Require Import Base.Bytes Model.Tokenizer Model.Parser Model.Command Model.Printer
   Proofs.ExprRoundTrip Proofs.FuelProofs Proofs.ParserProofs Proofs.CommandProofs
-  Proofs.TotalityProofs Proofs.PanicProofs Proofs.QueryRoundTrip Proofs.KnownClassProofs
+  Proofs.TotalityProofs Proofs.PanicProofs Proofs.QueryRoundTrip 
   Proofs.TokenizerProofs Proofs.CommandRoundTrip.
 Import ListNotations.
 Open Scope N_scope.
@@ -79,44 +79,34 @@ Theorem C17_fuel_enough :
 Proof. exact (conj parse_command_fuel_enough tokenize_fuel_enough). Qed.
 Print Assumptions C17_fuel_enough.
 
-(** Totality is false of the grammar as it is: each of the four unchecked conversions panics. *)
-Theorem C17_panic_refuted :
-  parse_command false txt_limit = PPanic SiteLimit /\
-  parse_command false txt_offset = PPanic SiteOffset /\
-  parse_command false txt_int = PPanic SiteInt /\
-  parse_command false txt_float = PPanic SiteFloat.
-Proof. exact panic_refuted. Qed.
-Print Assumptions C17_panic_refuted.
+(** Parsing is total on the model of the code as it is now (57cd0c4: the numeric conversions in
+    limit_clause / offset_clause / number are fallible grammar actions; the translator reads that
+    from query.rs): for every input, parse_command returns a command, an error, or one of the two
+    "not modelled" answers - never a panic, never out of fuel.  (Before the repair this was refuted
+    by four witnesses and held only outside a known class of out-of-range numerals.) *)
+Theorem C17_parse_total : forall s,
+  (forall k, parse_command_cur s <> PPanic k) /\ parse_command_cur s <> POOF.
+Proof. exact (fun s => conj (parse_never_panics s) (parse_command_fuel_enough _ s)). Qed.
+Print Assumptions C17_parse_total.
 
-(** ... and nothing else does: with the four conversions made fallible (fixes/C17-numeric-terminals.diff)
-    the parser never panics, on any input ... *)
-Theorem C17_fixed_never_panics : forall s k, parse_command true s <> PPanic k.
-Proof. exact fixed_never_panics. Qed.
-Print Assumptions C17_fixed_never_panics.
+(** Out-of-range numerals are parse errors (the former panic witnesses), their in-range neighbours parse. *)
+Theorem C17_numeric_limits :
+  (parse_command_cur txt_limit = PErr /\ parse_command_cur txt_offset = PErr /\
+   parse_command_cur txt_int = PErr /\ parse_command_cur txt_float = PErr) /\
+  (exists q, parse_command_cur [81;85;69;82;89;32;101;32;76;73;77;73;84;32;52;50;57;52;57;54;55;50;57;53] = POk (CQuery q)
+             /\ q_limit q = Some 4294967295) /\
+  (exists q, parse_command_cur [81;85;69;82;89;32;101;32;87;72;69;82;69;32;120;32;61;32;45;57;50;50;51;51;55;50;48;51;54;56;53;52;55;55;53;56;48;56]
+             = POk (CQuery q) /\ q_where q = Some (ECmp [120] OpEq (VInt (-9223372036854775808)))).
+Proof. exact (conj former_witnesses_rejected limits_accepted). Qed.
+Print Assumptions C17_numeric_limits.
 
-(** ... and returns exactly what the present grammar returns wherever that one does not panic. *)
-Theorem C17_fixed_agrees : forall s, (forall k, parse_command false s <> PPanic k) ->
-  parse_command true s = parse_command false s.
-Proof. exact fixed_agrees. Qed.
-Print Assumptions C17_fixed_agrees.
-
-(** Outside the known class the grammar as it is does not panic either: if at no position of
-    the input starts LIMIT/OFFSET followed by an integer outside u32, nor a numeral that [number]
-    would convert and that is outside i64 / overflows f64 ([has_bad], decidable), the QUERY
-    grammar returns a command or an error; and every panic of parse_command is such a panic. *)
-Theorem C17_no_panic_outside_known :
-  (forall s, has_bad s = false -> forall k, parse_query false s <> Panic k) /\
-  (forall s k, parse_command false s = PPanic k -> exists q, has_bad q = true /\ parse_query false q = Panic k).
-Proof. exact (conj no_panic_outside_known command_panic_in_known). Qed.
-Print Assumptions C17_no_panic_outside_known.
-
-(** The known classes at the conversions: each one panics exactly on its out-of-range texts. *)
-Theorem C17_panic_classes : forall neg d,
-  (conv_u32 false SiteLimit neg d = Panic SiteLimit <-> LimitOutOfU32 neg d) /\
-  (conv_u32 false SiteOffset neg d = Panic SiteOffset <-> OffsetOutOfU32 neg d) /\
-  (conv_i64 false neg d = Panic SiteInt <-> IntLiteralOutOfI64 neg d).
-Proof. exact (fun neg d => conj (conv_u32_panics_iff SiteLimit neg d) (conj (conv_u32_panics_iff SiteOffset neg d) (conv_i64_panics_iff neg d))). Qed.
-Print Assumptions C17_panic_classes.
+(** STORE: braces inside string literals are data (fced25a).  A one-member object whose key and value
+    are string literals without quote or backslash is matched as one block whatever braces the strings
+    contain, with any text after it. *)
+Theorem C17_store_string_braces : forall k v rest, clean_json_str k = true -> clean_json_str v = true ->
+  balanced_braces (member_block k v ++ rest) = Some (member_block k v, rest).
+Proof. exact store_block_with_string. Qed.
+Print Assumptions C17_store_string_braces.
 
 (** Dispatch: some variant of Command has no arm (Batch) ... *)
 Theorem C17_dispatch_refuted : exists k, In k all_kinds /\ dispatch_handled k = false.
